@@ -9,6 +9,7 @@ use sfs_core::input::{genotype::{self, Genotype, Skipped}, sample::{Population, 
 // project     : N | shape:a,b | ind:a,b
 // records     : contig~pos~gt,gt,gt ; ...     (gt strings for .cli; codes 0 1 2 m x p for .mem)   corrupt: contig~pos~!kind
 
+const LATIN1_MARK: &str = "\u{1}latin1";
 pub const CRLF_MARK: &str = "\u{1}crlf";
 const CRLF_NOEND_MARK: &str = "\u{1}crlfnoend";
 pub const FIFO_MARK: &str = "\u{1}fifo";
@@ -16,7 +17,8 @@ pub fn parse_samples(s: &str) -> Option<(bool, Vec<(String, Option<String>)>)> {
     if s == "N" { return None; }
     // `s:` inline list, `S:` samples file, `F:` samples file that is a named pipe (marked by a sentinel item)
     // `R:` samples file with Windows line endings (every line ends in CR LF), `Q:` the same without line ending after the last line
-    let file = s.starts_with("S:") || s.starts_with("F:") || s.starts_with("R:") || s.starts_with("Q:");
+    // `L:` samples file whose LAST line carries a byte that is not valid UTF-8 (a Latin-1 export): the file cannot be read, the run fails
+    let file = s.starts_with("S:") || s.starts_with("F:") || s.starts_with("R:") || s.starts_with("Q:") || s.starts_with("L:");
     let body = &s[2..];
     let mut items: Vec<(String, Option<String>)> = if body.is_empty() { vec![] } else {
         body.split(',').map(|it| match it.split_once('=') { Some((k, v)) => (k.to_string(), Some(v.to_string())), None => (it.to_string(), None) }).collect()
@@ -24,6 +26,7 @@ pub fn parse_samples(s: &str) -> Option<(bool, Vec<(String, Option<String>)>)> {
     if s.starts_with("F:") { items.push((FIFO_MARK.to_string(), None)); }
     if s.starts_with("R:") { items.push((CRLF_MARK.to_string(), None)); }
     if s.starts_with("Q:") { items.push((CRLF_NOEND_MARK.to_string(), None)); }
+    if s.starts_with("L:") { items.push((LATIN1_MARK.to_string(), None)); }
     Some((file, items))
 }
 
@@ -179,7 +182,8 @@ fn create_args(samples: &Option<(bool, Vec<(String, Option<String>)>)>, project:
             let path = format!("{work}/tmp/{uniq}.samples");
             let fifo = items.iter().any(|(k, _)| k == FIFO_MARK);
             let crlf = items.iter().any(|(k, _)| k == CRLF_MARK); let crlf_noend = items.iter().any(|(k, _)| k == CRLF_NOEND_MARK);
-            let is_mark = |k: &str| k == FIFO_MARK || k == CRLF_MARK || k == CRLF_NOEND_MARK;
+            let latin1 = items.iter().any(|(k, _)| k == LATIN1_MARK);
+            let is_mark = |k: &str| k == FIFO_MARK || k == CRLF_MARK || k == CRLF_NOEND_MARK || k == LATIN1_MARK;
             let mut body: String = items.iter().filter(|(k, _)| !is_mark(k)).map(|(k, v)| match v { Some(p) => format!("{k}\t{p}\n"), None => format!("{k}\n") }).collect();
             if crlf || crlf_noend { body = body.replace('\n', "\r\n"); }
             if crlf_noend && body.ends_with("\r\n") { body.truncate(body.len() - 2); }
@@ -191,6 +195,13 @@ fn create_args(samples: &Option<(bool, Vec<(String, Option<String>)>)>, project:
                     // write-only open blocks until the reader has opened the pipe; the writer is detached (a run that never opens the list must not hang the harness)
                     std::thread::spawn(move || { use std::io::Write; if let Ok(mut f) = std::fs::OpenOptions::new().write(true).open(&p2) { let _ = f.write_all(body.as_bytes()); } });
                 } else { std::fs::write(&path, body).unwrap(); }
+            } else if latin1 {
+                // the byte 0xE9 in front of the last line's first tab (or line end)
+                let mut bytes = body.clone().into_bytes();
+                let start = bytes[..bytes.len().saturating_sub(1)].iter().rposition(|b| *b == b'\n').map(|p| p + 1).unwrap_or(0);
+                let at = bytes[start..].iter().position(|b| *b == b'\t' || *b == b'\n').map(|p| start + p).unwrap_or(bytes.len());
+                bytes.insert(at, 0xE9);
+                std::fs::write(&path, bytes).unwrap();
             } else { std::fs::write(&path, body).unwrap(); }
             files.push(path.clone());
             args.push("-S".into()); args.push(path);
